@@ -218,6 +218,110 @@ fn run_reuse(tracer: &Tracer, how: &str, retry_term: &str) {
     tracer.emit(json!({"ev":"end","listing":w.dir.listing(),"locks":w.dir.lock_files(),"managed":w.managed()}));
 }
 
+/// The indexing worker is parked at the first file creation of its segment (the storage stalls) while a
+/// producer thread keeps adding documents until the pipeline is full and `add_document` blocks; then
+/// the creation fails: the worker dies.  The blocked call has to return (FaultProto: AddWake) - a
+/// producer left waiting for ever is a hang.
+fn run_stall(tracer: &Tracer) {
+    use std::sync::atomic::{AtomicBool, AtomicU64, Ordering};
+    use std::sync::{Arc, Condvar, Mutex};
+    use std::time::{Duration, Instant};
+    use vh::simdir::OpInfo;
+    tracer.reset_canon();
+    let mut cfg = Cfg::default();
+    cfg.threads = 1;
+    tracer.emit(json!({"ev":"reset","cfg":cfg.to_json(),"tag":{"stall":true}}));
+    let mut w = World::new_quiet(tracer, &cfg, false);
+    install_sink(tracer, w.regs.clone(), None);
+    w.exec(&json!({"op":"new_writer"}));
+    let gate = Arc::new((Mutex::new((false, false)), Condvar::new())); // (parked, release)
+    let g2 = gate.clone();
+    w.dir.set_gate(Some(Arc::new(move |op: &OpInfo, after: bool| {
+        if op.role.starts_with("worker") && op.op == "open_write" && !after {
+            let (m, cv) = &*g2;
+            let mut g = m.lock().unwrap();
+            if !g.0 {
+                g.0 = true;
+                cv.notify_all();
+                let t0 = Instant::now();
+                while !g.1 && t0.elapsed() < Duration::from_secs(60) {
+                    let (x, _) = cv.wait_timeout(g, Duration::from_millis(20)).unwrap();
+                    g = x;
+                }
+            }
+        }
+    })));
+    let writer = Arc::new(w.writer.take().expect("writer"));
+    let accepted = Arc::new(AtomicU64::new(0));
+    let finished = Arc::new(AtomicBool::new(false));
+    let failed = Arc::new(AtomicBool::new(false));
+    let docs: Vec<tantivy::TantivyDocument> = vec![w.doc(1, "a", 0)];
+    let (wr, acc, fin, fl) = (writer.clone(), accepted.clone(), finished.clone(), failed.clone());
+    let d0 = docs[0].clone();
+    std::thread::Builder::new()
+        .name("producer".into())
+        .spawn(move || {
+            for _ in 0..30_000u32 {
+                match wr.add_document(d0.clone()) {
+                    Ok(_) => {
+                        acc.fetch_add(1, Ordering::SeqCst);
+                    }
+                    Err(_) => {
+                        fl.store(true, Ordering::SeqCst);
+                        break;
+                    }
+                }
+            }
+            fin.store(true, Ordering::SeqCst);
+        })
+        .unwrap();
+    // wait until the worker is parked and the producer has stopped making progress (pipeline full)
+    let t0 = Instant::now();
+    let (mut last, mut still) = (0u64, 0u32);
+    while t0.elapsed() < Duration::from_secs(30) && still < 15 && !finished.load(Ordering::SeqCst) {
+        std::thread::sleep(Duration::from_millis(20));
+        let now = accepted.load(Ordering::SeqCst);
+        let parked = gate.0.lock().unwrap().0;
+        still = if parked && now == last { still + 1 } else { 0 };
+        last = now;
+    }
+    let blocked = !finished.load(Ordering::SeqCst);
+    tracer.emit(json!({"ev":"stall_state","worker_parked":gate.0.lock().unwrap().0,"accepted":accepted.load(Ordering::SeqCst),"producer_blocked":blocked}));
+    // the stalled creation fails
+    let now = w.dir.opcount();
+    w.dir.set_fault(FaultPlan { k: now + 1, ops: vec!["open_write".into()], skip_locks: true, permanent: true, ..Default::default() });
+    {
+        let (m, cv) = &*gate;
+        m.lock().unwrap().1 = true;
+        cv.notify_all();
+    }
+    let t1 = Instant::now();
+    while !finished.load(Ordering::SeqCst) && t1.elapsed() < Duration::from_secs(10) {
+        std::thread::sleep(Duration::from_millis(10));
+    }
+    w.dir.set_gate(None);
+    if !finished.load(Ordering::SeqCst) {
+        tracer.emit(json!({"ev":"hang","ms":10_000,"where":"add_document blocked on a full pipeline after the indexing worker died","accepted":accepted.load(Ordering::SeqCst)}));
+        tracer.emit(json!({"ev":"schedule","name":"worker stalled at its first file creation until the pipeline is full, then the creation fails","realised":blocked}));
+        tracer.flush();
+        // the producer thread cannot be woken: nothing more can be done in this process
+        std::process::exit(0);
+    }
+    tracer.emit(json!({"ev":"stall_result","returned":true,"add_failed":failed.load(Ordering::SeqCst),"accepted":accepted.load(Ordering::SeqCst)}));
+    tracer.emit(json!({"ev":"schedule","name":"worker stalled at its first file creation until the pipeline is full, then the creation fails","realised":blocked}));
+    w.dir.set_fault(FaultPlan::default());
+    drop(writer);
+    tracer.emit(json!({"ev":"drop_writer","ok":true,"locks":w.dir.lock_files()}));
+    tracer.emit(json!({"ev":"heal","fired":1}));
+    w.exec(&json!({"op":"new_writer"}));
+    w.exec(&json!({"op":"add","id":9000,"t":"zz","v":0}));
+    w.exec(&json!({"op":"commit"}));
+    w.exec(&json!({"op":"wait_merges"}));
+    w.exec(&json!({"op":"observe"}));
+    tantivy::verif::set_sink(None);
+    tracer.emit(json!({"ev":"end","listing":w.dir.listing(),"locks":w.dir.lock_files(),"managed":w.managed()}));
+}
+
 fn main() {
     let a = Args::parse();
     let tracer = Tracer::to_file(&a.get("out", "/dev/stdout"));
@@ -233,6 +337,11 @@ fn main() {
                 run_reuse(&tracer, how, retry_term);
             }
         }
+        tracer.flush();
+        return;
+    }
+    if a.pos.get(0).map(|s| s.as_str()) == Some("stall") {
+        run_stall(&tracer);
         tracer.flush();
         return;
     }
